@@ -830,7 +830,11 @@ class WorkflowConductor(object):
 
         # If the task has retry spec defined, then setup the retry in the task state entry.
         if self.graph.task_has_retry(task_id):
-            self.setup_retry_in_task_state(task_state_entry, in_ctx_idxs)
+            try:
+                self.setup_retry_in_task_state(task_state_entry, in_ctx_idxs)
+            except Exception as e:
+                self.log_error(e, task_id=task_id, route=route)
+                self.request_workflow_status(statuses.FAILED)
 
         # Append the task state entry to the list of task execution.
         task_state_entry_id = constants.TASK_STATE_ROUTE_FORMAT % (task_id, str(route))
@@ -951,9 +955,17 @@ class WorkflowConductor(object):
             # the state machine has determined the status for the task execution. If the task
             # is completed, get the task result and context which is required to evaluate the
             # the condition if a retry for the task is required.
-            if self.get_workflow_status() in statuses.ACTIVE_STATUSES and self._evaluate_task_retry(
-                task_state_entry, current_ctx
-            ):
+            # If there is a failure while evaluating the retry condition, fail the workflow.
+            try:
+                retry_required = self.get_workflow_status() in statuses.ACTIVE_STATUSES and (
+                    self._evaluate_task_retry(task_state_entry, current_ctx)
+                )
+            except Exception as e:
+                self.log_error(e, task_id=task_id, route=route)
+                self.request_workflow_status(statuses.FAILED)
+                retry_required = False
+
+            if retry_required:
                 return self.update_task_state(task_id, route, events.TaskRetryEvent())
 
         # Evaluate task transitions if task is completed and status change is not processed.
